@@ -139,9 +139,10 @@ fn key_record(e: &Event) -> Vec<u8> {
 /// readers and writer underneath, mio registration and zero-timeout poll.
 pub struct PipeLayer { pub p: Pipes, drv: VerifRealDriver, pub stats: WireStats, last_actual: Option<Vec<Event>> }
 impl PipeLayer {
-  pub fn new() -> PipeLayer {
+  /// `has_tablet` = false builds the shipped driver without a tablet switch (its `t: None` paths)
+  pub fn new(has_tablet: bool) -> PipeLayer {
     let p = Pipes::new();
-    let drv = VerifRealDriver::from_fds(p.kbd_r, p.out_w, Some(p.tab_r));
+    let drv = VerifRealDriver::from_fds(p.kbd_r, p.out_w, if has_tablet { Some(p.tab_r) } else { None });
     PipeLayer { p, drv, stats: WireStats::default(), last_actual: None }
   }
 }
